@@ -275,7 +275,15 @@ let json_run fn argstr =
              if d = 44 || d = 58 || d = 93 || d = 125 then hex_of_bytes t.k_value
              else Printf.sprintf "%s/%s/%s/%d" (hex_of_bytes t.k_value) (string_of_z t.k_depth) (string_of_z t.k_index) (if t.k_iskey then 1 else 0) in
            String.concat " " (List.map show toks @ (if st.t_err then ["ERR"] else [])))
-      ^ "\t-"
+      ^ "\t" ^
+      (* the grammar-derived specification tokens (Json/StateSpec.v), compared with the std-derived oracle *)
+      (if fn <> "j.tok" then "-" else
+       match spec_tokens b with
+       | None -> "-"
+       | Some ss ->
+           String.concat " " (List.map (fun s ->
+             if s.st_constrained then Printf.sprintf "%s/%s/%s/%d" (hex_of_bytes s.st_value) (string_of_z s.st_depth) (string_of_z s.st_index) (if s.st_iskey then 1 else 0)
+             else hex_of_bytes s.st_value) ss))
   | "j.stream", [a] ->
       (match String.split_on_char '|' a with
        | [h; mode; fa] ->
@@ -291,7 +299,15 @@ let json_run fn argstr =
            let out = if String.length out > 600
              then Printf.sprintf "len=%d h=%Lx tail=%s" (String.length out) (fnv out) (String.sub out (String.length out - 40) 40)
              else out in
-           out ^ "\t-"
+           let spec =
+             if int_of_string fa >= 0 then "-" else
+             (match frame (nat_of_int (n + 1)) (List.map z_of_int data) with
+              | (vs, true) ->
+                  let o = String.concat " " (List.map (fun v -> compact_json (List.map int_of_z v)) vs @ ["eof"]) in
+                  if String.length o > 600
+                  then Printf.sprintf "len=%d h=%Lx tail=%s" (String.length o) (fnv o) (String.sub o (String.length o - 40) 40) else o
+              | _ -> "-") in
+           out ^ "\t" ^ spec
        | _ -> "bad-args")
   | "j.escidx", [h; html] ->
       let b = bytes_of_hex h in
